@@ -1042,4 +1042,64 @@ theorem getItem_readback_any (cls : Cls) (kvs : List (Str × Val)) (q : Pos) (cu
     exact getItem_readback_idx cls kvs q cur cur' e steps v t' fuel hp hget hsteps hnq
       (fun x hx => hnp x (by simp [hx])) hcreate hset hf
 
+/-! ## a refused assignment (fix C03-a) -/
+
+/-- the part of `__setitem__` after the search: whatever raises there (`_add`, the final store), the tree
+is the one the search left — what `_add` had inserted is taken back -/
+theorem setItem_tail_error (root1 : Val) (par0 : PRef) (ni0 : Option Str) (nf : List Str) (v t' : Val) (e : PyErr)
+    (h : (if (!nf.isEmpty) = true then
+            match add root1 par0 ni0 nf with
+            | (_, .error e) => (root1, Except.error e)
+            | (root2, .ok (par, ni)) =>
+              match storeAt root2 par (some ni) v with
+              | .error e => (root1, .error e)
+              | .ok root' => (root', .ok ())
+          else
+            match storeAt root1 par0 ni0 v with
+            | .error e => (root1, .error e)
+            | .ok root' => (root', .ok ())) = (t', (.error e : PyM Unit))) : t' = root1 := by
+  by_cases hne : (!nf.isEmpty) = true
+  · rw [if_pos hne] at h
+    cases hadd : add root1 par0 ni0 nf with
+    | mk root2 res =>
+      cases res with
+      | error e2 => simp only [hadd] at h; cases h; rfl
+      | ok pn =>
+        obtain ⟨par, ni⟩ := pn
+        simp only [hadd] at h
+        cases hst : storeAt root2 par (some ni) v with
+        | error e3 => simp only [hst] at h; cases h; rfl
+        | ok r' => simp only [hst] at h; cases h
+  · rw [if_neg hne] at h
+    cases hst : storeAt root1 par0 ni0 v with
+    | error e3 => simp only [hst] at h; cases h; rfl
+    | ok r' => simp only [hst] at h; cases h
+
+/-- **a raising `__setitem__`, every tree, every path text, every value**: the tree afterwards is the tree
+before the call, or the tree the *search* returned (the only thing `_find` ever writes is the conversion of
+a single value into a one-element list by a `new()` step) -/
+theorem setItem_error_tree (fuel : Nat) (t : Val) (xp : Str) (v t' : Val) (e : PyErr)
+    (h : setItem fuel t xp v = (t', .error e)) :
+    t' = t ∨ ∃ r, findD fuel t [] false true (tokenize (if startsWith xp ['?'] then xp.drop 1 else xp)) (.at []) true
+      slash = .ok (t', r) := by
+  cases t with
+  | dict c kvs =>
+    simp only [setItem] at h
+    by_cases hskip : (startsWith xp ['?'] && (decide (v = Val.none) || decide (v = emptyStr))) = true
+    · rw [if_pos hskip] at h; cases h
+    · rw [if_neg hskip] at h
+      generalize (if startsWith xp ['?'] = true then List.drop 1 xp else xp) = xp' at h ⊢
+      by_cases hpc : hasPathChar xp' = true
+      · rw [if_pos hpc] at h
+        cases hfind : findD fuel (.dict c kvs) [] false true (tokenize xp') (.at []) true slash with
+        | error e' => simp only [hfind] at h; cases h; left; rfl
+        | ok pr =>
+          obtain ⟨root1, r⟩ := pr
+          simp only [hfind] at h
+          right
+          refine ⟨r, ?_⟩
+          rw [setItem_tail_error root1 _ _ _ v t' e h]
+      · rw [if_neg hpc] at h; cases h
+  | _ => simp only [setItem] at h; cases h; left; rfl
+
 end N0.XPath
